@@ -17,7 +17,7 @@ values and the idiom `all(a < b for a, b in zip(xs[:-1], xs[1:]))`.
 generated from the source.  An environment `ρ → Val` says what each read returns for the object under check.
 -/
 namespace Nix.PyGuard
-open Nix.Units (Str isSi isAtomic)
+open Nix.Units (Str isSi isAtomic scalable)
 
 /-- the Python values the validator's reads return -/
 inductive Val where
@@ -71,6 +71,79 @@ inductive Prim where
   | isAtomic | isSi
   deriving DecidableEq, Repr
 
+/-- conditions over the pair `(a, b)` bound by `for a, b in zip(xs, ys)` inside a verdict helper (both strings) -/
+inductive PairExpr where
+  | fst | snd
+  | strLit (s : String)
+  | eq (a b : PairExpr)
+  | and (a b : PairExpr)
+  | or (a b : PairExpr)
+  | not (a : PairExpr)
+  /-- `units.scalable(a, b)` -/
+  | scalable (a b : PairExpr)
+  deriving DecidableEq, Repr
+
+/-- `==` on the values of pair conditions -/
+def sumEq : Sum Str Bool → Sum Str Bool → Bool
+  | .inl a, .inl b => a == b
+  | .inr a, .inr b => a == b
+  | _, _ => false
+
+/-- value of a pair condition: a string or a bool -/
+def PairExpr.eval (p : Str × Str) : PairExpr → Except Err (Sum Str Bool)
+  | .fst => .ok (.inl p.1)
+  | .snd => .ok (.inl p.2)
+  | .strLit s => .ok (.inl s.toList)
+  | .eq a b =>
+    match a.eval p, b.eval p with
+    | .ok x, .ok y => .ok (.inr (sumEq x y))
+    | .error e, _ => .error e
+    | _, .error e => .error e
+  | .and a b =>
+    match a.eval p with
+    | .ok (.inr true) => b.eval p
+    | .ok (.inr false) => .ok (.inr false)
+    | .ok (.inl s) => if s.isEmpty then .ok (.inl s) else b.eval p
+    | .error e => .error e
+  | .or a b =>
+    match a.eval p with
+    | .ok (.inr true) => .ok (.inr true)
+    | .ok (.inr false) => b.eval p
+    | .ok (.inl s) => if s.isEmpty then b.eval p else .ok (.inl s)
+    | .error e => .error e
+  | .not a =>
+    match a.eval p with
+    | .ok (.inr b) => .ok (.inr (!b))
+    | .ok (.inl s) => .ok (.inr s.isEmpty)
+    | .error e => .error e
+  | .scalable a b =>
+    match a.eval p, b.eval p with
+    | .ok (.inl x), .ok (.inl y) => .ok (.inr (Nix.Units.scalable x y))
+    | .error e, _ => .error e
+    | _, .error e => .error e
+    | _, _ => .error .typeError
+
+/-- truthiness of a pair condition -/
+def PairExpr.holds (p : Str × Str) (c : PairExpr) : Except Err Bool :=
+  match c.eval p with
+  | .ok (.inr b) => .ok b
+  | .ok (.inl s) => .ok (!s.isEmpty)
+  | .error e => .error e
+
+/-- one iteration of the inner loop of a verdict helper of the shape
+`for ys in yss: for a, b in zip(xs, ys): [if skip_i: continue]*; if fail: return False` … `return True`:
+`true` = the iteration does not return -/
+def pairPasses (skips : List PairExpr) (fail : PairExpr) (p : Str × Str) : Except Err Bool :=
+  match skips with
+  | [] => match fail.holds p with
+    | .ok b => .ok (!b)
+    | .error e => .error e
+  | c :: cs =>
+    match c.holds p with
+    | .ok true => .ok true
+    | .ok false => pairPasses cs fail p
+    | .error e => .error e
+
 inductive Expr (ρ : Type) where
   | read (r : ρ)
   /-- the variable bound by the innermost enclosing generator -/
@@ -90,6 +163,9 @@ inductive Expr (ρ : Type) where
   | anyIn (src : Expr ρ) (cond : Option (Expr ρ)) (body : Expr ρ)
   /-- `q(a op b for a, b in zip(e[:-1], e[1:]))` -/
   | adjacent (q : Quant) (op : Cmp) (e : Expr ρ)
+  /-- a call `helper(xs, yss)` of a verdict helper of the shape
+  `for ys in yss: for a, b in zip(xs, ys): [if skip_i: continue]*; if fail: return False` … `return True`, inlined -/
+  | matchAll (skips : List PairExpr) (fail : PairExpr) (xs yss : Expr ρ)
   deriving Repr
 
 /-- a number as a rational (`none` = not a number) -/
@@ -202,6 +278,11 @@ def eval {ρ : Type} (env : ρ → Val) : Val → Expr ρ → Except Err Val
       let items ← itemsOf (← eval env bv e)
       let rs := (adjPairs items).map fun p => compare op p.1 p.2
       pure (.bool (← match q with | .all => allM rs | .any => anyM rs))
+  | bv, .matchAll skips fail xs yss => do
+      match (← eval env bv xs), (← eval env bv yss) with
+      | .strs us, .strss rss =>
+        pure (.bool (← allM (rss.map fun ru => allM ((us.zip ru).map (pairPasses skips fail)))))
+      | _, _ => .error .typeError
 
 /-- a report site fires: its enclosing conditions, outermost first, are all truthy (an inner condition is evaluated
 only when the outer ones hold) -/
